@@ -1,5 +1,6 @@
 import JSL.Driver.Canon
 import JSL.Model.Check
+import JSL.Model.Compile
 
 /-!
 # Line-protocol driver
@@ -261,6 +262,50 @@ def command (sc : Scen) (key : String) (v : List Int) : IO Scen := do
     pure sc
   | _, _ => IO.println s!"X BadCommand {key}"; pure sc
 
+/-! ## compile-model commands (texts are hex-encoded ASCII) -/
+
+def hexVal (c : Char) : Nat :=
+  if c.isDigit then c.toNat - 48 else if 'a' ≤ c ∧ c ≤ 'f' then c.toNat - 87 else 0
+
+partial def unhex : List Char → List Char
+  | a :: b :: r => Char.ofNat (hexVal a * 16 + hexVal b) :: unhex r
+  | _ => []
+
+def txt (t : Compile.Text) : String := String.ofList t
+
+/-- last entry per key wins (dict semantics), printed sorted by key -/
+def printEntries (tag : String) (es : List ((String × String) × Int)) : IO Unit := do
+  let dedup := es.reverse.foldl (fun (acc : List ((String × String) × Int)) e =>
+    if acc.any (fun x => x.1 == e.1) then acc else e :: acc) []
+  let sorted := dedup.mergeSort fun a b => (a.1.1 ++ ">" ++ a.1.2) ≤ (b.1.1 ++ ">" ++ b.1.2)
+  IO.println (tag ++ " " ++ " ".intercalate (sorted.map fun e => s!"{e.1.1}>{e.1.2}={e.2}"))
+
+def compileCommand (key : String) (args : List String) : IO Bool := do
+  match key, args with
+  | "CJOBS", [enc] =>
+    let rows := Compile.parseJobMatrix (unhex enc.toList)
+    IO.println ("CJ " ++ ";".intercalate (rows.map fun r => ",".intercalate (r.map fun g => s!"{g.1}:{g.2}")))
+    pure true
+  | "CMAT", [inId, outId, enc] =>
+    match Compile.parseMatrix (unhex enc.toList) with
+    | none => IO.println "CM rejected"
+    | some m =>
+      let mapped := m.entries.map fun e =>
+        (Compile.mapLocName inId.toList outId.toList e.1.1, Compile.mapLocName inId.toList outId.toList e.1.2, e.2)
+      if mapped.any (fun e => e.1.isNone || e.2.1.isNone) then IO.println "CM unknown-location"
+      else printEntries "CM" (mapped.filterMap fun e =>
+        match e.1, e.2.1 with | some a, some b => some ((txt a, txt b), e.2.2) | _, _ => none)
+    pure true
+  | "CSET", [enc] =>
+    match Compile.parseMatrix (unhex enc.toList) with
+    | none => IO.println "CS rejected"
+    | some m => printEntries "CS" (m.entries.map fun e => ((txt e.1.1, txt e.1.2), e.2))
+    pure true
+  | "NEWID", ids =>
+    IO.println s!"CI {Compile.newId (ids.map String.toNat!)}"
+    pure true
+  | _, _ => pure false
+
 partial def loop (h : IO.FS.Stream) (sc : Scen) : IO Unit := do
   let line ← h.getLine
   if line.isEmpty then return ()
@@ -269,6 +314,7 @@ partial def loop (h : IO.FS.Stream) (sc : Scen) : IO Unit := do
   | [] => loop h sc
   | "END" :: _ => IO.println "E"; (← IO.getStdout).flush; loop h {}
   | key :: rest =>
+    if (← compileCommand key rest) then loop h sc else
     let v := ints rest
     match header sc key v with
     | some sc' => loop h sc'
